@@ -87,16 +87,18 @@ def rjacinv (t : SE2T K) : M3 K :=
   let A := theta * sin_theta
   let j01 := -theta * rat 1 2
   let j10 := -j01
-  if Scalar.gt (theta_sq * theta_sq) Scalar.eps then
+  if Scalar.gt (theta_sq * theta_sq * theta_sq * theta_sq) Scalar.eps then
     let j00 := -A / (nat 2 * cos_theta - nat 2)
     let C := nat 1 / theta - sin_theta / (nat 2 * (nat 1 - cos_theta))
     let j02 := t.y / nat 2 + C * t.x
     let j12 := -t.x / nat 2 + C * t.y
     ⟨j00, j01, j02, j10, j00, j12, nat 0, nat 0, nat 1⟩
   else
-    let j00 := nat 1 - theta_sq / nat 12
-    let j02 := t.y / nat 2 + theta * t.x / nat 12
-    let j12 := -t.x / nat 2 + theta * t.y / nat 12
+    let S := rat 1 12 + theta_sq * (rat 1 720 + theta_sq * rat 1 30240)
+    let j00 := nat 1 - theta_sq * S
+    let C := theta * S
+    let j02 := t.y / nat 2 + C * t.x
+    let j12 := -t.x / nat 2 + C * t.y
     ⟨j00, j01, j02, j10, j00, j12, nat 0, nat 0, nat 1⟩
 
 def ljac (t : SE2T K) : M3 K :=
@@ -124,16 +126,18 @@ def ljacinv (t : SE2T K) : M3 K :=
   let A := theta * sin_theta
   let j01 := theta * rat 1 2
   let j10 := -j01
-  if Scalar.gt (theta_sq * theta_sq) Scalar.eps then
+  if Scalar.gt (theta_sq * theta_sq * theta_sq * theta_sq) Scalar.eps then
     let j00 := -A / (nat 2 * cos_theta - nat 2)
     let C := nat 1 / theta - sin_theta / (nat 2 * (nat 1 - cos_theta))
     let j02 := -t.y / nat 2 + C * t.x
     let j12 := t.x / nat 2 + C * t.y
     ⟨j00, j01, j02, j10, j00, j12, nat 0, nat 0, nat 1⟩
   else
-    let j00 := nat 1 - theta_sq / nat 12
-    let j02 := -t.y / nat 2 + theta * t.x / nat 12
-    let j12 := t.x / nat 2 + theta * t.y / nat 12
+    let S := rat 1 12 + theta_sq * (rat 1 720 + theta_sq * rat 1 30240)
+    let j00 := nat 1 - theta_sq * S
+    let C := theta * S
+    let j02 := -t.y / nat 2 + C * t.x
+    let j12 := t.x / nat 2 + C * t.y
     ⟨j00, j01, j02, j10, j00, j12, nat 0, nat 0, nat 1⟩
 
 def smallAdj (t : SE2T K) : M3 K :=
